@@ -409,7 +409,15 @@ pub fn op_in(lw: u32, lh: u32, big: bool) -> BoxedStrategy<DrawOp> {
     let sps = (inner_rect(lw, lh, cap), seed(), 0u32..=100)
         .prop_map(|(r, seed, pct)| {
             let area = r.area() as u32;
-            let n = if pct >= 60 { area } else { (area as u64 * pct as u64 / 60) as u32 };
+            // mostly exactly the window, sometimes fewer colours, sometimes surplus colours
+            // (documented: "drawing will wrap around" inside the window)
+            let n = if pct >= 94 {
+                area + 1 + (seed % area.max(1))
+            } else if pct >= 55 {
+                area
+            } else {
+                (area as u64 * pct as u64 / 55) as u32
+            };
             DrawOp::SetPixels {
                 sx: r.x as u16,
                 sy: r.y as u16,
